@@ -15,6 +15,12 @@
                        loop = defer recover(){ ok = true } ; for !Closed(c) && next() {}
                        next = ReadPacket (error: leave) ; sessionHandler.HandlePacket(packet) (may panic)
 
+     Closed(c)       = c.ctx.Err() != nil where c.ctx is a CHILD of the context given to NewMinecraftConn:
+                       true after the teardown's cancelCtx() AND after the parent context was cancelled
+                       (seen_closed).  closeKnown itself does not look at it: after a parent cancel Close /
+                       CloseUnknown / the read loop's deferred close still run the teardown (once); WritePacket
+                       and CloseWith answer ErrClosedConn without closing anything (observed on the real code).
+
    [cfg] switches the two guards off so that what each of them is needed for is a model fact
    (impl_cfg = the code as it is: both on).  The peer closing its end (reads see EOF, writes fail) and
    the blocked read returning an error are environment actions. *)
@@ -22,8 +28,9 @@ From Coq Require Import List Bool Arith.
 From Verif Require Import Base.Conc.
 Import ListNotations.
 
-Record cfg := mkCfg { use_once : bool; use_recover : bool }.
-Definition impl_cfg : cfg := mkCfg true true.
+(* early_exit: a variant of closeKnown that first answers ErrClosedConn when Closed(c) (NOT in the code) *)
+Record cfg := mkCfg { use_once : bool; use_recover : bool; early_exit : bool }.
+Definition impl_cfg : cfg := mkCfg true true false.
 
 (* what HandlePacket does with one incoming packet: returns, or panics with a value of some kind *)
 Inductive pval := PError | PString | PRuntime | PCustom.
@@ -33,8 +40,9 @@ Inductive hkind := HReturn | HPanic (v : pval).
 Inductive creg := CIdle | CGo | CFailed | CSkip.
 
 Record cst := mkC {
-  c_closed : bool;        (* ctx cancelled: Closed(c) *)
+  c_closed : bool;        (* the teardown called cancelCtx() *)
   c_once : bool;          (* closeOnce has fired *)
+  c_cancel : bool;        (* the parent context given to NewMinecraftConn was cancelled *)
   c_broken : bool;        (* the peer closed its end of the pipe *)
   c_loop_done : bool;     (* startReadLoop left its loops *)
   c_died : bool;          (* the process died of an uncontained panic *)
@@ -42,14 +50,16 @@ Record cst := mkC {
   c_regs : list creg
 }.
 
-Definition cinit : cst := mkC false false false false false 0 [].
+Definition cinit : cst := mkC false false false false false false 0 [].
 
 Inductive wres := WOk | WClosed | WIO.
 Inductive cres := CFirst | CAlready.
 
 Inductive event :=
 | EDisc                              (* SessionHandler.Disconnected() ran *)
+| ECancel                            (* the parent context was cancelled *)
 | ECloseRet (t : nat) (r : cres)      (* closeKnown returned to goroutine t: ran the teardown / ErrClosedConn *)
+| ECwSkip (t : nat)                   (* CloseWith saw Closed(c) and answered ErrClosedConn without closing *)
 | EWStart (t : nat) (saw_closed : bool)   (* a write began; what its Closed(c) check saw *)
 | EWRes (t : nat) (r : wres)          (* the write returned *)
 | EHandle (i : nat) (h : hkind)       (* HandlePacket entered for incoming packet number i *)
@@ -67,7 +77,10 @@ Fixpoint upd {A : Type} (d : A) (i : nat) (x : A) (l : list A) : list A :=
 
 Definition get_reg (t : nat) (s : cst) : creg := nth t (c_regs s) CIdle.
 Definition set_reg (t : nat) (r : creg) (s : cst) : cst :=
-  mkC (c_closed s) (c_once s) (c_broken s) (c_loop_done s) (c_died s) (c_next s) (upd CIdle t r (c_regs s)).
+  mkC (c_closed s) (c_once s) (c_cancel s) (c_broken s) (c_loop_done s) (c_died s) (c_next s) (upd CIdle t r (c_regs s)).
+
+(* Closed(c) *)
+Definition seen_closed (s : cst) : bool := c_closed s || c_cancel s.
 
 (* a dead process does nothing *)
 Definition alive (a : cst -> cst * list event) : @action cst event :=
@@ -75,22 +88,22 @@ Definition alive (a : cst -> cst * list event) : @action cst event :=
 
 (* closeKnown *)
 Definition do_close (c : cfg) (t : nat) (s : cst) : cst * list event :=
-  if use_once c && c_once s
+  if (use_once c && c_once s) || (early_exit c && (c_closed s || c_cancel s))
   then (s, [ECloseRet t CAlready])
-  else (mkC true true (c_broken s) (c_loop_done s) (c_died s) (c_next s) (c_regs s),
+  else (mkC true true (c_cancel s) (c_broken s) (c_loop_done s) (c_died s) (c_next s) (c_regs s),
         [EDisc; ECloseRet t CFirst]).
 
 Definition a_close (c : cfg) (t : nat) : @action cst event := alive (do_close c t).
 
 (* WritePacket, three steps *)
 Definition a_wcheck (t : nat) : @action cst event := alive (fun s =>
-  if c_closed s
+  if seen_closed s
   then (set_reg t CSkip s, [EWStart t true; EWRes t WClosed])
   else (set_reg t CGo s, [EWStart t false])).
 
 Definition a_wdo (t : nat) : @action cst event := alive (fun s =>
   match get_reg t s with
-  | CGo => if c_closed s then (set_reg t CIdle s, [EWRes t WClosed])   (* bufferPacket's own Closed check *)
+  | CGo => if seen_closed s then (set_reg t CIdle s, [EWRes t WClosed])   (* bufferPacket's own Closed check *)
            else if c_broken s
            then (set_reg t CFailed s, [])            (* Flush fails: closeOnWriteErr comes next *)
            else (set_reg t CIdle s, [EWRes t WOk])
@@ -109,11 +122,11 @@ Definition write_thread (c : cfg) (t : nat) : list (@action cst event) :=
 
 (* CloseWith: Closed check, WritePacket whose result is dropped, Close *)
 Definition a_cwcheck (t : nat) : @action cst event := alive (fun s =>
-  if c_closed s then (set_reg t CSkip s, [ECloseRet t CAlready]) else (set_reg t CGo s, [])).
+  if seen_closed s then (set_reg t CSkip s, [ECwSkip t]) else (set_reg t CGo s, [])).
 
 Definition a_cwwrite (c : cfg) (t : nat) : @action cst event := alive (fun s =>
   match get_reg t s with
-  | CGo => if c_closed s then (s, [])               (* WritePacket answers ErrClosedConn, dropped *)
+  | CGo => if seen_closed s then (s, [])            (* WritePacket answers ErrClosedConn, dropped *)
            else if c_broken s then do_close c t s   (* Flush fails: closeOnWriteErr *)
            else (s, [])
   | _ => (s, [])
@@ -130,31 +143,35 @@ Definition closewith_thread (c : cfg) (t : nat) : list (@action cst event) :=
 
 (* environment: the peer closes its end *)
 Definition a_peer_close : @action cst event := alive (fun s =>
-  (mkC (c_closed s) (c_once s) true (c_loop_done s) (c_died s) (c_next s) (c_regs s), [])).
+  (mkC (c_closed s) (c_once s) (c_cancel s) true (c_loop_done s) (c_died s) (c_next s) (c_regs s), [])).
+
+(* environment: the parent context is cancelled *)
+Definition a_cancel : @action cst event := alive (fun s =>
+  (mkC (c_closed s) (c_once s) true (c_broken s) (c_loop_done s) (c_died s) (c_next s) (c_regs s), [ECancel])).
 
 (* one iteration of the read loop: the next incoming packet is handled with behaviour h *)
 Definition a_iter (c : cfg) (h : hkind) : @action cst event := alive (fun s =>
   if c_loop_done s then (s, [])
-  else if c_closed s
+  else if seen_closed s
   then (* cond() is false: leave, the deferred closeKnown(false) runs *)
-       let '(s1, e1) := do_close c 0 (mkC (c_closed s) (c_once s) (c_broken s) true (c_died s) (c_next s) (c_regs s)) in
+       let '(s1, e1) := do_close c 0 (mkC (c_closed s) (c_once s) (c_cancel s) (c_broken s) true (c_died s) (c_next s) (c_regs s)) in
        (s1, ELoopExit :: e1)
   else
     let i := c_next s in
-    let s' := mkC (c_closed s) (c_once s) (c_broken s) (c_loop_done s) (c_died s) (S i) (c_regs s) in
+    let s' := mkC (c_closed s) (c_once s) (c_cancel s) (c_broken s) (c_loop_done s) (c_died s) (S i) (c_regs s) in
     match h with
     | HReturn => (s', [EHandle i h])
     | HPanic _ =>
         if use_recover c
         then (s', [EHandle i h; ERecovered i])          (* ok = true: the outer loop goes on *)
-        else (mkC (c_closed s) (c_once s) (c_broken s) (c_loop_done s) true (S i) (c_regs s),
+        else (mkC (c_closed s) (c_once s) (c_cancel s) (c_broken s) (c_loop_done s) true (S i) (c_regs s),
               [EHandle i h; EDied])
     end).
 
 (* the blocked read returns an error (EOF, timeout, closed pipe): leave, deferred closeKnown(false) *)
 Definition a_read_err (c : cfg) : @action cst event := alive (fun s =>
   if c_loop_done s then (s, [])
-  else let '(s1, e1) := do_close c 0 (mkC (c_closed s) (c_once s) (c_broken s) true (c_died s) (c_next s) (c_regs s)) in
+  else let '(s1, e1) := do_close c 0 (mkC (c_closed s) (c_once s) (c_cancel s) (c_broken s) true (c_died s) (c_next s) (c_regs s)) in
        (s1, ELoopExit :: e1)).
 
 Definition readloop_thread (c : cfg) (script : list hkind) : list (@action cst event) :=
@@ -166,7 +183,8 @@ Inductive gor :=
 | GClose            (* Close() or CloseUnknown(): closeKnown *)
 | GCloseWith        (* CloseWith(c, packet) *)
 | GWrite            (* WritePacket *)
-| GPeerClose.       (* the peer closes its end of the pipe *)
+| GPeerClose        (* the peer closes its end of the pipe *)
+| GCancel.          (* the parent context is cancelled *)
 
 Definition gor_thread (c : cfg) (t : nat) (g : gor) : list (@action cst event) :=
   match g with
@@ -174,6 +192,7 @@ Definition gor_thread (c : cfg) (t : nat) (g : gor) : list (@action cst event) :
   | GCloseWith => closewith_thread c t
   | GWrite => write_thread c t
   | GPeerClose => [a_peer_close]
+  | GCancel => [a_cancel]
   end.
 
 Fixpoint gors_from (c : cfg) (t : nat) (gs : list gor) : list (list (@action cst event)) :=
@@ -190,6 +209,9 @@ Definition program (c : cfg) (script : list hkind) (gs : list gor) : list (list 
 Definition is_disc (e : event) : bool := match e with EDisc => true | _ => false end.
 Definition n_disc (evs : list event) : nat := length (filter is_disc evs).
 Definition has_disc (evs : list event) : bool := existsb is_disc evs.
+(* Closed(c) would answer true: the teardown ran or the parent context was cancelled *)
+Definition is_closing (e : event) : bool := match e with EDisc | ECancel => true | _ => false end.
+Definition has_closed (evs : list event) : bool := existsb is_closing evs.
 Definition n_first (evs : list event) : nat :=
   length (filter (fun e => match e with ECloseRet _ CFirst => true | _ => false end) evs).
 Definition handled (evs : list event) : list nat :=
@@ -211,7 +233,7 @@ Definition scan_step (st : bool * bool * option nat) (e : event) : bool * bool *
       end
   | None =>
       match e with
-      | EDisc => (ok, true, None)
+      | EDisc | ECancel => (ok, true, None)
       | EWStart t b => (ok && Bool.eqb b closed, closed, if b then Some t else None)
       | _ => (ok, closed, None)
       end
